@@ -50,6 +50,15 @@ fn programs(fair: bool) -> Vec<Program> {
     // two expired TTL keys in one expiry shard: the sweeper evicts one while the worker evicts the other
     v.push(mk("evicting-put(c)||{tick} sweeping a and b (both TTL, expired)", 4, vec![put_ttl(1, 2, 1000), put_ttl(2, 1, 1000), adv(3000)], vec![vec![put(3, 3)], vec![Op::Tick]]));
     v.push(mk("evicting-put_ttl(c)||{tick} sweeping b||delete(a)", 4, vec![put_ttl(1, 2, 5000), put_ttl(2, 1, 1000), adv(3000)], vec![vec![put_ttl(3, 3, 5000)], vec![Op::Tick], vec![del(1)]]));
+    // two callers move two keys' expiries between the two expiry shards in opposite directions
+    v.push(mk("upsert(a, ttl 1s->2s) || upsert(b, ttl 2s->1s) || {tick}", 100, vec![put_ttl(1, 30, 1000), put_ttl(2, 30, 2000)], vec![vec![ups(1, Some(30), Some(2000), false)], vec![ups(2, Some(30), Some(1000), false)], vec![Op::Tick]]));
+    // shutdown while the worker samples for an eviction
+    {
+        let mut p = mk("shutdown || evicting-put(c) || get(a)", 4, vec![put(1, 2), put(2, 1)], vec![vec![Op::Shutdown], vec![put(3, 3)], vec![get(1)]]);
+        p.post = vec![get(1)];
+        p.quiesce_sweeps = false;
+        v.push(p);
+    }
     // shutdown vs. everything
     {
         let mut p = mk("shutdown||upsert(a,ttl)||get(a);put(c)", 100, vec![put_ttl(1, 30, 1000)], vec![vec![Op::Shutdown], vec![ups(1, Some(30), Some(9000), false)], vec![get(1), put(3, 2)]]);
@@ -69,7 +78,11 @@ pub fn def(ctx: &Ctx) -> PropertyDef {
     let workers = ctx.workers;
     let mut scenarios: Vec<Scenario> = Vec::new();
     for fair in [false, true] {
-        for p in programs(fair) {
+        for (pi, p) in programs(fair).into_iter().enumerate() {
+            // the quick tier runs the second rwlock rule only on the programs that nest parking_lot rwlocks most
+            if quick && fair && ![0usize, 1, 2, 3, 5].contains(&pi) {
+                continue;
+            }
             scenarios.push({
                 let nthreads = p.threads.len();
                 program_scenario(p, oracle(), move |c| crate::harness::ilv::tier_cfg(c, nthreads))
